@@ -7,28 +7,12 @@ model can quote is COMPUTED (`.ok`), so that the defaults in `ctyRules` are neve
 taken there.
 -/
 import CtyModel.Lemmas.d03Num
+import CtyModel.SetRulesD03
 import CtyModel.Lemmas.ValEqRules
 namespace CtyModel
 open Value
 
 /-! ### the number leaves of a payload -/
-
-mutual
-/-- every number leaf of the payload, in order -/
-def Payload.nums : Payload → List Num
-  | .n x => [x]
-  | .marked _ r => Payload.nums r
-  | .seq vs => Payload.numsL vs
-  | .smap _ vs => Payload.numsL vs
-  | .sset _ vs => Payload.numsL vs
-  | _ => []
-def Payload.numsL : List Payload → List Num
-  | [] => []
-  | v :: vs => Payload.nums v ++ Payload.numsL vs
-end
-
-/-- every number leaf is an integer (at whatever precision) -/
-def Payload.intNums (p : Payload) : Bool := p.nums.all Num.isInt
 
 mutual
 theorem numsIn_of_subset (ns : List Num) : ∀ p : Payload, (∀ x ∈ p.nums, x ∈ ns) → p.numsIn ns = true
@@ -97,21 +81,6 @@ theorem hash_eq_of_hashBytes_eq {a b : Value} (h : hashBytes a = hashBytes b)
   simp only [Value.hash, h, hm]
 
 /-! ### the hash is computed wherever the model can quote the strings -/
-
-mutual
-/-- every string leaf and every map key has a modelled `%q` form (all runes are in
-the part of strconv's printable table the model knows) -/
-def Payload.quotable : Payload → Bool
-  | .s v => (quote v).isOk
-  | .marked _ r => Payload.quotable r
-  | .seq vs => Payload.quotableL vs
-  | .smap ks vs => ks.all (fun k => (quote k).isOk) && Payload.quotableL vs
-  | .sset _ vs => Payload.quotableL vs
-  | _ => true
-def Payload.quotableL : List Payload → Bool
-  | [] => true
-  | v :: vs => Payload.quotable v && Payload.quotableL vs
-end
 
 theorem ok_of_isOk {α : Type} {r : Res α} (h : r.isOk = true) : ∃ x, r = .ok x := by
   cases r <;> simp [Res.isOk] at h
